@@ -11,17 +11,19 @@ Variable derandomize deinterleave : list Z -> list Z.
 Variable depuncture : geometry -> list Z -> list Z -> list Z.
 Variable viterbi : geometry -> VS -> list Z -> list bool -> (list bool * Z) * VS.
 Variable golay_decode : N -> option N.
+Variable vs_ok : VS -> Prop.                       (* well-formedness of the Viterbi scratch (array sizes) *)
 
 (* de-puncturing defines every output position, whatever was in the buffer (C11) *)
 Hypothesis depuncture_indep : forall g inp prev prev',
   length prev = g_in g -> length prev' = g_in g -> depuncture g inp prev = depuncture g inp prev'.
 Hypothesis depuncture_len : forall g inp prev, length prev = g_in g -> length (depuncture g inp prev) = g_in g.
 (* Viterbi writes every output bit and re-initialises its scratch (C02) *)
-Hypothesis viterbi_indep : forall g vs vs' inp prev prev',
+Hypothesis viterbi_indep : forall g vs vs' inp prev prev', vs_ok vs -> vs_ok vs' ->
   length inp = g_in g -> length prev = g_out g -> length prev' = g_out g ->
   fst (viterbi g vs inp prev) = fst (viterbi g vs' inp prev').
-Hypothesis viterbi_len : forall g vs inp prev,
-  length inp = g_in g -> length prev = g_out g -> length (fst (fst (viterbi g vs inp prev))) = g_out g.
+Hypothesis viterbi_len : forall g vs inp prev, vs_ok vs ->
+  length inp = g_in g -> length prev = g_out g ->
+  length (fst (fst (viterbi g vs inp prev))) = g_out g /\ vs_ok (snd (viterbi g vs inp prev)).
 
 Notation hidden := (hidden VS).
 Notation dstate := (dstate VS).
@@ -29,7 +31,7 @@ Notation step := (step VS derandomize deinterleave depuncture viterbi golay_deco
 Notation decode_payload := (decode_payload VS depuncture viterbi).
 
 Definition hid_ok (h : hidden) : Prop :=
-  length (h_dbuf VS h) = 488%nat /\ length (h_obuf VS h) = 240%nat /\ length (h_ubuf VS h) = 26%nat.
+  length (h_dbuf VS h) = 488%nat /\ length (h_obuf VS h) = 240%nat /\ length (h_ubuf VS h) = 26%nat /\ vs_ok (h_vs VS h).
 
 Definition same_visible (s s' : dstate) : Prop :=
   d_mode VS s = d_mode VS s' /\ d_seg VS s = d_seg VS s' /\ d_lsf VS s = d_lsf VS s'.
@@ -47,9 +49,10 @@ Lemma decode_payload_spec g h h' inp : hid_ok h -> hid_ok h' ->
   decode_payload g h inp = (bytes, bits, cost, h1) -> decode_payload g h' inp = (bytes', bits', cost', h1') ->
   bytes = bytes' /\ bits = bits' /\ cost = cost' /\ bytes = to_bytes bits /\ length bits = g_out g /\
   length (h_dbuf VS h1) = 488%nat /\ length (h_obuf VS h1) = 240%nat /\ h_ubuf VS h1 = h_ubuf VS h /\
-  length (h_dbuf VS h1') = 488%nat /\ length (h_obuf VS h1') = 240%nat /\ h_ubuf VS h1' = h_ubuf VS h'.
+  length (h_dbuf VS h1') = 488%nat /\ length (h_obuf VS h1') = 240%nat /\ h_ubuf VS h1' = h_ubuf VS h' /\
+  vs_ok (h_vs VS h1) /\ vs_ok (h_vs VS h1').
 Proof.
-  intros (D & O & U) (D' & O' & U') bytes bits cost h1 bytes' bits' cost' h1' E E'.
+  intros (D & O & U & K) (D' & O' & U' & K') bytes bits cost h1 bytes' bits' cost' h1' E E'.
   unfold ImplFrameDecoder.decode_payload in E, E'.
   pose proof (g_in_le g) as GI. pose proof (g_out_le g) as GO.
   assert (L1 : length (firstn (g_in g) (h_dbuf VS h)) = g_in g) by (rewrite firstn_length; lia).
@@ -59,14 +62,14 @@ Proof.
   rewrite (depuncture_indep g inp _ _ L1' L1) in E'.
   set (dep := depuncture g inp (firstn (g_in g) (h_dbuf VS h))) in *.
   assert (Ld : length dep = g_in g) by (apply depuncture_len; exact L1).
-  pose proof (viterbi_indep g (h_vs VS h) (h_vs VS h') dep _ _ Ld L2 L2') as V.
-  pose proof (viterbi_len g (h_vs VS h) dep _ Ld L2) as VL.
-  pose proof (viterbi_len g (h_vs VS h') dep _ Ld L2') as VL'.
+  pose proof (viterbi_indep g (h_vs VS h) (h_vs VS h') dep _ _ K K' Ld L2 L2') as V.
+  pose proof (viterbi_len g (h_vs VS h) dep _ K Ld L2) as (VL & VK).
+  pose proof (viterbi_len g (h_vs VS h') dep _ K' Ld L2') as (VL' & VK').
   destruct (viterbi g (h_vs VS h) dep (firstn (g_out g) (h_obuf VS h))) as [[b c] v] eqn:EV.
   destruct (viterbi g (h_vs VS h') dep (firstn (g_out g) (h_obuf VS h'))) as [[b' c'] v'] eqn:EV'.
-  cbn [fst snd] in V, VL, VL'. injection V as Vb Vc. subst b' c'.
+  cbn [fst snd] in V, VL, VL', VK, VK'. injection V as Vb Vc. subst b' c'.
   injection E as <- <- <- <-. injection E' as <- <- <- <-.
-  cbn [h_dbuf h_obuf h_ubuf].
+  cbn [h_dbuf h_obuf h_ubuf h_vs].
   repeat split; try reflexivity; try assumption; try (apply overwrite_length; lia).
   all: rewrite overwrite_length; lia.
 Qed.
@@ -82,8 +85,8 @@ Lemma to_bytes_le bits g : g <> GLsf -> length bits = g_out g -> (length (to_byt
 Proof. intros G L. unfold to_bytes. rewrite pack_bits_length, L. destruct g; try congruence; vm_compute; lia. Qed.
 
 Lemma set_ubuf_ok h bytes : length (h_dbuf VS h) = 488%nat -> length (h_obuf VS h) = 240%nat ->
-  length (h_ubuf VS h) = 26%nat -> (length bytes <= 26)%nat -> hid_ok (set_ubuf VS h bytes).
-Proof. intros D O U L. unfold hid_ok, set_ubuf. cbn [h_dbuf h_obuf h_ubuf].
+  length (h_ubuf VS h) = 26%nat -> vs_ok (h_vs VS h) -> (length bytes <= 26)%nat -> hid_ok (set_ubuf VS h bytes).
+Proof. intros D O U K L. unfold hid_ok, set_ubuf. cbn [h_dbuf h_obuf h_ubuf h_vs].
   repeat split; try assumption. rewrite overwrite_length; lia. Qed.
 
 Ltac payload s s' fr E E' :=
@@ -93,16 +96,16 @@ Ltac payload s s' fr E E' :=
 Lemma decode_lsf_indep s s' fr : same_visible s s' -> hid_ok (hid s) -> hid_ok (hid s') ->
   obs_eq (decode_lsf VS depuncture viterbi s fr) (decode_lsf VS depuncture viterbi s' fr).
 Proof. intros (M & S & L) H H'. unfold decode_lsf. payload s s' fr E E'.
-  destruct (decode_payload_spec GLsf _ _ fr H H' _ _ _ _ _ _ _ _ E E') as (-> & -> & -> & Eb & Lb & D1 & O1 & U1 & D1' & O1' & U1').
-  destruct H as (_ & _ & U). destruct H' as (_ & _ & U').
+  destruct (decode_payload_spec GLsf _ _ fr H H' _ _ _ _ _ _ _ _ E E') as (-> & -> & -> & Eb & Lb & D1 & O1 & U1 & D1' & O1' & U1' & K1 & K1').
+  destruct H as (_ & _ & U & _). destruct H' as (_ & _ & U' & _).
   destruct (N.eqb (crc30 bytes') 0); unfold obs_eq, observe, st_of, res_of, cost_of, cbs_of, same_visible, hid, hid_ok;
     cbn [fst snd d_mode d_seg d_lsf d_hid]; rewrite ?M, ?S; repeat split; try assumption; congruence. Qed.
 
 Lemma decode_stream_indep s s' fr : same_visible s s' -> hid_ok (hid s) -> hid_ok (hid s') ->
   obs_eq (decode_stream VS depuncture viterbi s fr) (decode_stream VS depuncture viterbi s' fr).
 Proof. intros (M & S & L) H H'. unfold decode_stream. payload s s' (skipn 96 fr) E E'.
-  destruct (decode_payload_spec GStream _ _ _ H H' _ _ _ _ _ _ _ _ E E') as (-> & -> & -> & Eb & Lb & D1 & O1 & U1 & D1' & O1' & U1').
-  destruct H as (_ & _ & U). destruct H' as (_ & _ & U').
+  destruct (decode_payload_spec GStream _ _ _ H H' _ _ _ _ _ _ _ _ E E') as (-> & -> & -> & Eb & Lb & D1 & O1 & U1 & D1' & O1' & U1' & K1 & K1').
+  destruct H as (_ & _ & U & _). destruct H' as (_ & _ & U' & _).
   pose proof (to_bytes_le _ GStream ltac:(discriminate) Lb) as LB.
   unfold obs_eq, observe, st_of, res_of, cost_of, cbs_of, same_visible, hid; cbn [fst snd d_mode d_seg d_lsf d_hid].
   rewrite Eb in *. split; [congruence|]. split; [repeat split; assumption|]. split; apply set_ubuf_ok; congruence || assumption. Qed.
@@ -110,8 +113,8 @@ Proof. intros (M & S & L) H H'. unfold decode_stream. payload s s' (skipn 96 fr)
 Lemma decode_bert_indep s s' fr : same_visible s s' -> hid_ok (hid s) -> hid_ok (hid s') ->
   obs_eq (decode_bert VS depuncture viterbi s fr) (decode_bert VS depuncture viterbi s' fr).
 Proof. intros (M & S & L) H H'. unfold decode_bert. payload s s' fr E E'.
-  destruct (decode_payload_spec GBert _ _ _ H H' _ _ _ _ _ _ _ _ E E') as (-> & -> & -> & Eb & Lb & D1 & O1 & U1 & D1' & O1' & U1').
-  destruct H as (_ & _ & U). destruct H' as (_ & _ & U').
+  destruct (decode_payload_spec GBert _ _ _ H H' _ _ _ _ _ _ _ _ E E') as (-> & -> & -> & Eb & Lb & D1 & O1 & U1 & D1' & O1' & U1' & K1 & K1').
+  destruct H as (_ & _ & U & _). destruct H' as (_ & _ & U' & _).
   pose proof (to_bytes_le _ GBert ltac:(discriminate) Lb) as LB.
   unfold obs_eq, observe, st_of, res_of, cost_of, cbs_of, same_visible, hid; cbn [fst snd d_mode d_seg d_lsf d_hid].
   rewrite Eb in *. split; [congruence|]. split; [repeat split; assumption|]. split; apply set_ubuf_ok; congruence || assumption. Qed.
@@ -119,8 +122,8 @@ Proof. intros (M & S & L) H H'. unfold decode_bert. payload s s' fr E E'.
 Lemma decode_packet_indep s s' fr ty r : same_visible s s' -> hid_ok (hid s) -> hid_ok (hid s') ->
   obs_eq (decode_packet VS depuncture viterbi s fr ty r) (decode_packet VS depuncture viterbi s' fr ty r).
 Proof. intros (M & S & L) H H'. unfold decode_packet. payload s s' fr E E'.
-  destruct (decode_payload_spec GPacket _ _ _ H H' _ _ _ _ _ _ _ _ E E') as (-> & -> & -> & Eb & Lb & D1 & O1 & U1 & D1' & O1' & U1').
-  destruct H as (_ & _ & U). destruct H' as (_ & _ & U').
+  destruct (decode_payload_spec GPacket _ _ _ H H' _ _ _ _ _ _ _ _ E E') as (-> & -> & -> & Eb & Lb & D1 & O1 & U1 & D1' & O1' & U1' & K1 & K1').
+  destruct H as (_ & _ & U & _). destruct H' as (_ & _ & U' & _).
   pose proof (to_bytes_le _ GPacket ltac:(discriminate) Lb) as LB.
   rewrite Eb in *.
   destruct (negb (N.eqb (N.land (nth 25 (to_bytes bits') 0%N) 128) 0));
@@ -150,7 +153,7 @@ Proof. unfold unpack_lich.
 
 Lemma decode_lich_indep s s' fr : same_visible s s' -> hid_ok (hid s) -> hid_ok (hid s') ->
   obs_eq (decode_lich VS golay_decode s fr) (decode_lich VS golay_decode s' fr).
-Proof. intros (M & S & L) (D & O & U) (D' & O' & U'). unfold decode_lich.
+Proof. intros (M & S & L) (D & O & U & K0) (D' & O' & U' & K0'). unfold decode_lich.
   pose proof (unpack_lich_length fr) as LL.
   destruct (unpack_lich golay_decode fr) as [lich ok]. cbn [fst] in LL.
   assert (K : hid_ok (set_ubuf VS (d_hid VS s) lich)) by (apply set_ubuf_ok; try assumption; lia).
